@@ -39,7 +39,10 @@ fn main_check(ctx: &Ctx) -> Outcome {
     let (lf, lruns, ldev) = large_sweep(Mode::Strip, &sizes, &k_large);
     out.findings.extend(lf);
     out.push_part(json!({"part":"large inputs","sizes":sizes,"unit":LARGE_UNIT,"shifts":LARGE_UNIT.len(),"executions":lruns,"executions_with_deviation":ldev,"deviation_bound":"1 for the 1023-byte size (and 8193 bytes in the thorough tier), 0 otherwise"}));
-    let (runs, deviating) = (runs + lruns, deviating + ldev);
+    let (mf, mruns, mdev, minputs) = medium_sweep(Mode::Strip);
+    out.findings.extend(mf);
+    out.push_part(json!({"part":"medium-length inputs: 10 sequence prefixes x {none, LF, TAB} x 0..=40 plain bytes x {none, CAN, SUB, BEL} x 3 characters x tails; standard protocol with <= 1 deviation, write_all, two write_all / two write! cut after the prefix","inputs":minputs,"executions":mruns,"executions_with_deviation":mdev}));
+    let (runs, deviating) = (runs + lruns + mruns, deviating + ldev + mdev);
     out.set("evaluations", json!(runs));
     out.set("distinct_nontrivial", json!(deviating));
     out.set("rule", json!("evaluations = executions (input x driver x script), each distinct by construction; distinct_nontrivial = executions whose script contains at least one deviation (short write or injected error); a script is the list of answers of the inner writer, enumerated CHESS-style with a bound on the number of non-default answers"));
